@@ -569,3 +569,79 @@ def p4(ctx):
     if n < 2:
         raise AnalysisError("only %d repository open/init sites found" % n)
     return obs
+
+
+_OWN_DIR = {"self.path", "self.repo.path", "self.repo", "path", "cls.path"}
+
+
+@rule("C13", "P5", floor=8, kind="S",
+      desc="the stores create and open files only inside their own directory: the location of every open() in the store "
+           "layer is derived from self.path / self.repo.path (or the directory create() was given), and a temporary file is "
+           "made with dir= such a location - tempfile's default directory is outside the root, and user data staged there "
+           "stays behind whenever the rename fails or the process dies")
+def p5(ctx):
+    from ..dataflow import DefUse, depends_on
+    from .storelib import STORE_MODULES
+    obs = []
+    inl = ctx.cfgs.inliner
+    def helper_in_own_dir(fi_, call, depth=0):
+        """`self._item_path(name)`: a method of the store whose every result is located under the store directory."""
+        if depth > 2 or not (isinstance(call, ast.Call) and isinstance(call.func, ast.Attribute) and isinstance(call.func.value, ast.Name)
+                             and call.func.value.id in ("self", "cls") and fi_.cls is not None):
+            return False
+        g = ctx.P.lookup_method(fi_.cls, call.func.attr)
+        if g is None:
+            return False
+        try:
+            gc = ctx.cfg(g)
+        except AnalysisError:
+            return False
+        gdu = DefUse(gc)
+        rets = [r for r in gc.nodes if r.kind == "return"]
+        if not rets:
+            return False
+        for r in rets:
+            v = r.ast.value if isinstance(r.ast, ast.Return) else r.ast
+            if v is None:
+                return False
+            dv = depends_on(gdu, r, v)
+            if not (dv & _OWN_DIR) and not any(helper_in_own_dir(g, x, depth + 1) for x in ast.walk(v)):
+                return False
+        return True
+
+    for m in sorted(mn for mn in ctx.P.modules if mn.startswith("xandikos.store.") and not mn.startswith("xandikos.store.tests")):
+        for fi in ctx.P.funcs_in_module(m):
+            if inl.is_new(fi):
+                continue
+            try:
+                cfg = ctx.cfg(fi)
+            except AnalysisError:
+                continue
+            du = None
+            for n in cfg.stmt_nodes():
+                for c in n.calls():
+                    d = dotted(c.func) or ""
+                    loc = None
+                    what = None
+                    if d in ("open", "io.open", "os.open") and c.args:
+                        loc, what = c.args[0], "open"
+                    elif d.startswith("tempfile.") and d.split(".")[-1] in ("NamedTemporaryFile", "TemporaryFile", "SpooledTemporaryFile", "mkstemp",
+                                                                              "mkdtemp", "TemporaryDirectory", "mktemp"):
+                        what = d
+                        kw = [k.value for k in c.keywords if k.arg == "dir"]
+                        loc = kw[0] if kw else None
+                    elif d in ("tempfile.gettempdir", "tempfile.gettempdirb"):
+                        what = d
+                    else:
+                        continue
+                    du = du or DefUse(cfg)
+                    deps = depends_on(du, n, loc) if loc is not None else set()
+                    ok = bool(deps & _OWN_DIR) and not (isinstance(loc, ast.Constant) and loc.value is None)
+                    if not ok and loc is not None:
+                        ok = any(helper_in_own_dir(fi, x) for x in ast.walk(loc))
+                    obs.append(ctx.ob(ok, fi.qualname, "%s:%d" % (fi.module.rel, n.lineno), "%s inside the store directory" % what.split(".")[-1],
+                                      "location derives from %s" % ", ".join(sorted(deps & _OWN_DIR)),
+                                      "%s: `%s` %s - the file is created outside the directory of the collection (for tempfile: the system "
+                                      "temporary directory, outside the served root), where user data is left behind when the write does not complete"
+                                      % (fi.short, src(c)[:70], "has no dir= argument" if (what != "open" and loc is None) else "is not located under self.path / self.repo.path")))
+    return obs
